@@ -134,6 +134,9 @@ func CompareSuccess(sc *Scenario, o *ParseObs, checkRest bool) (string, string) 
 	if !eqCalls(callbacksOnly(o.Log), e.Calls) {
 		return "callbacks", fmt.Sprintf("callback log %v, expected %v", callbacksOnly(o.Log), e.Calls)
 	}
+	if msg := aliasDamage(d); msg != "" {
+		return "program-data-overwritten", msg
+	}
 	for gi, g := range d.Grps {
 		for pi, pf := range g.Plain {
 			if !pf.Val.IsValid() {
